@@ -92,7 +92,11 @@ def check(prop, args):
     findings, inconclusive, samples = [], [], []
     assumptions = list(spec.get("assumptions", []))
     cov = {"states": 0, "transitions": 0, "traces_validated_against_impl": 0, "samples": samples,
-           "engines": {}, "functions_encoded": [], "bounds": spec.get("bounds", {}).get(tr, ""),
+           "engines": {}, "functions_encoded": [],
+           "bounds": spec.get("bounds", {}).get(tr, "") if tr == "quick" else
+           ("the quick bounds in full [%s]; then, for the rest of the time budget, the deeper jobs [%s] -- a deeper mirsym job "
+            "named in engines.mirsym.summary.thorough_not_completed was explored only in part (no violation on the part "
+            "explored) and is not claimed" % (spec.get("bounds", {}).get("quick", ""), spec.get("bounds", {}).get("thorough", ""))),
            "outside_bounds": spec.get("outside", ""), "queries_discharged": 0, "solver_time_s": 0.0}
     only = set(args.only.split(",")) if args.only else None
     known = [k for k in load_known_findings() if k["property"] == prop]
